@@ -158,6 +158,13 @@ REF = {
     "assert_zero": _assert(lambda a: a == 0), "assert_nonzero": _assert(lambda a: a != 0),
     "assert_positive": _assert(lambda a: a >= 0),
     "assert_range": _assert(lambda a, lo, hi: lo <= a < hi),
+    "assert_positive_w": _assert(lambda a, w: 0 <= a < 2 ** w),
+    "to_bits_w": _assert(lambda a, w: 0 <= a < 2 ** w),
+    "declare_bool": _assert(lambda a: a in (0, 1)),
+    "ensure_bool": _assert(lambda a: a in (0, 1)),
+    "privvalbool": _assert(lambda a: a in (0, 1)),
+    "pubvalbool": _assert(lambda a: a in (0, 1)),
+    "unpack_intmod": _assert(lambda m, *bits: sum(b << i for i, b in enumerate(bits[:(m - 1).bit_length()])) < m),
 }
 
 # ----------------------------------------------------------------------------------------------
@@ -196,7 +203,20 @@ IMPL = {
     "assert_gt": _method("assert_gt"), "assert_ge": _method("assert_ge"),
     "assert_zero": _method("assert_zero"), "assert_nonzero": _method("assert_nonzero"),
     "assert_positive": _method("assert_positive"), "assert_range": _method("assert_range"),
+    "assert_positive_w": lambda a, w: a.assert_positive(w),
+    "to_bits_w": lambda a, w: a.to_bits(w),
+    "declare_bool": lambda a: H.boolean.LinCombBool(a),
+    "ensure_bool": lambda a: H.boolean.LinCombBool._ensurebool(a),
+    "privvalbool": lambda v: H.boolean.PrivValBool(v),
+    "pubvalbool": lambda v: H.boolean.PubValBool(v),
+    "unpack_intmod": lambda m, *bits: _unpack_intmod(m, bits),
 }
+
+
+def _unpack_intmod(m, bits):
+    from pysnark.pack import PackIntMod
+    return PackIntMod(m).unpack(list(bits), 0)
+
 
 BINARY_INT = ["add", "sub", "mul", "truediv", "floordiv", "mod", "divmod", "pow", "lshift",
               "rshift", "and", "or", "xor", "lt", "le", "eq", "ne", "gt", "ge"]
